@@ -170,7 +170,7 @@ fn lifecycle(ctx: &mut Ctx) {
             }
         }
         if let Some(p) = &o.ipc_path {
-            let exists = ctx.sim.rt.net.borrow().files.contains(std::path::Path::new(p));
+            let exists = ctx.sim.rt.net.borrow().file_exists(std::path::Path::new(p));
             if exists && !fail_unlink {
                 ctx.violation(&key("ipc_file_not_removed"), format!("{tag}: the socket file {p} still exists"));
             }
